@@ -120,11 +120,16 @@ Quiesced ==
             \cup (IF alive /\ lostProbe # {} THEN Flag("C11", "probe-not-delivered") ELSE {})
     /\ UNCHANGED <<sub, seen, lastOnCh, lastGlobal, relWait, ideal, probes, emitted, alive>>
 
+ReasmEnd ==     \* end of a reassembly run: every fragment of every (Reliable) packet was handed over
+    /\ IsEvent("ReasmEnd")
+    /\ bad' = bad \cup (IF alive /\ ~Cur.all_delivered THEN Flag("C04", "packet-not-delivered-although-every-fragment-arrived") ELSE {})
+    /\ UNCHANGED <<sub, seen, lastOnCh, lastGlobal, relWait, ideal, probes, emitted, alive>>
+
 Skip ==
     /\ IsOneOf({"End", "FaultsEnd", "Net", "Probe", "FlushEnd", "Handle", "Step", "RecvEnd"})
     /\ UNCHANGED <<sub, seen, lastOnCh, lastGlobal, relWait, ideal, probes, emitted, alive, bad>>
 
-Next == Reset \/ Send \/ Deliver \/ Emit \/ Probes \/ Ret \/ Quiesced \/ Skip
+Next == Reset \/ Send \/ Deliver \/ Emit \/ Probes \/ Ret \/ Quiesced \/ ReasmEnd \/ Skip
 
 Spec == Init /\ [][Next]_vars
 
